@@ -195,55 +195,91 @@ func c09sched(c *core.Ctx) {
 	// two handshakes with the same client id overlap (a client that gave up on a slow
 	// connection attempt and tried again); afterwards both connections end abnormally:
 	// each ending publishes the will of its own CONNECT
-	scs = append(scs, scen{"two overlapping handshakes with one client id, both end abnormally", func() {
-		t := newTD()
-		w := t.connect("W", 0, 65535, false)
-		t.subscribe("W", "#", 2)
-		a, err := t.w.Dial("A")
-		if err != nil {
-			vsched.Failf("harness: dial: %v", err)
-			return
+	// ... or one of them ends with a DISCONNECT packet: that suppresses the will of the
+	// connection that sent it and of no other
+	for _, ov := range []struct {
+		first        string // which connection ends first
+		discA, discB bool   // ends with a DISCONNECT packet
+	}{{"A", false, false}, {"A", true, false}, {"A", false, true}, {"B", true, false}, {"B", false, true}, {"A", true, true}} {
+		ov := ov
+		how := func(d bool) string {
+			if d {
+				return "DISCONNECT"
+			}
+			return "cut"
 		}
-		b, err := t.w.Dial("B")
-		if err != nil || vsched.Failed() {
-			return
-		}
-		w.rc.Take()
-		vsched.Mark()
-		a.Conn.Write(refcodec.Encode(ConnectPacket(ConnectOpts{ClientID: "x", Clean: false, KeepAlive: 65535, Will: &Will{"w/a", "will of A", 1, false}})))
-		b.Conn.Write(refcodec.Encode(ConnectPacket(ConnectOpts{ClientID: "x", Clean: false, KeepAlive: 65535, Will: &Will{"w/b", "will of B", 0, false}})))
-		t.w.Settle()
-		if ga, gb := a.Take(), b.Take(); !hasType(ga, refcodec.CONNACK) || !hasType(gb, refcodec.CONNACK) {
-			vsched.Failf("the two CONNECTs were answered by %s and %s", Describe(ga), Describe(gb))
-			return
-		}
-		// the second connection goes on working: it subscribes a filter of its own
-		b.Send(&refcodec.Packet{Type: refcodec.SUBSCRIBE, ID: 3, Topics: [][]byte{[]byte("data/b")}, QoSs: []byte{1}})
-		t.w.Settle()
-		if gb := b.Take(); !hasType(gb, refcodec.SUBACK) {
-			vsched.Failf("the SUBSCRIBE of the second connection was answered by %s", Describe(gb))
-			return
-		}
-		w.rc.Take()
-		a.Cut()
-		t.w.Settle()
-		got := w.rc.Take()
-		if wa, wb := publishesOn(got, "w/a"), publishesOn(got, "w/b"); len(wa) != 1 || string(wa[0].Payload) != "will of A" || wa[0].QoS != 1 || len(wb) != 0 {
-			vsched.Failf("connection A (will \"will of A\" on w/a, QoS 1) was cut while B is open; wills published: %s", Describe(got))
-			return
-		}
-		b.Cut()
-		t.w.Settle()
-		got = w.rc.Take()
-		if wa, wb := publishesOn(got, "w/a"), publishesOn(got, "w/b"); len(wb) != 1 || string(wb[0].Payload) != "will of B" || len(wa) != 0 {
-			vsched.Failf("connection B (will \"will of B\" on w/b) was cut; wills published: %s", Describe(got))
-			return
-		}
-		if t.badStream() {
-			return
-		}
-		vsched.Logf("ok")
-	}})
+		scs = append(scs, scen{fmt.Sprintf("two overlapping handshakes with one client id, %s ends first (A: %s, B: %s)", ov.first, how(ov.discA), how(ov.discB)), func() {
+			t := newTD()
+			w := t.connect("W", 0, 65535, false)
+			t.subscribe("W", "#", 2)
+			a, err := t.w.Dial("A")
+			if err != nil {
+				vsched.Failf("harness: dial: %v", err)
+				return
+			}
+			b, err := t.w.Dial("B")
+			if err != nil || vsched.Failed() {
+				return
+			}
+			w.rc.Take()
+			vsched.Mark()
+			a.Conn.Write(refcodec.Encode(ConnectPacket(ConnectOpts{ClientID: "x", Clean: false, KeepAlive: 65535, Will: &Will{"w/a", "will of A", 1, false}})))
+			b.Conn.Write(refcodec.Encode(ConnectPacket(ConnectOpts{ClientID: "x", Clean: false, KeepAlive: 65535, Will: &Will{"w/b", "will of B", 0, false}})))
+			t.w.Settle()
+			if ga, gb := a.Take(), b.Take(); !hasType(ga, refcodec.CONNACK) || !hasType(gb, refcodec.CONNACK) {
+				vsched.Failf("the two CONNECTs were answered by %s and %s", Describe(ga), Describe(gb))
+				return
+			}
+			// the second connection goes on working: it subscribes a filter of its own
+			b.Send(&refcodec.Packet{Type: refcodec.SUBSCRIBE, ID: 3, Topics: [][]byte{[]byte("data/b")}, QoSs: []byte{1}})
+			t.w.Settle()
+			if gb := b.Take(); !hasType(gb, refcodec.SUBACK) {
+				vsched.Failf("the SUBSCRIBE of the second connection was answered by %s", Describe(gb))
+				return
+			}
+			w.rc.Take()
+			end := func(name string) bool {
+				rc, disc, topic, other := a, ov.discA, "w/a", "w/b"
+				if name == "B" {
+					rc, disc, topic, other = b, ov.discB, "w/b", "w/a"
+				}
+				if disc {
+					rc.Send(&refcodec.Packet{Type: refcodec.DISCONNECT})
+					t.w.Settle()
+				}
+				rc.Cut()
+				t.w.Settle()
+				got := w.rc.Take()
+				mine, others := publishesOn(got, topic), publishesOn(got, other)
+				want := 1
+				if disc {
+					want = 0
+				}
+				wq := byte(1)
+				if name == "B" {
+					wq = 0
+				}
+				if len(mine) != want || len(others) != 0 || (want == 1 && (string(mine[0].Payload) != "will of "+name || mine[0].QoS != wq)) {
+					vsched.Failf("connection %s (will \"will of %s\" on %s, QoS %d) ended by %s; wills published: %s", name, name, topic, wq, how(disc), Describe(got))
+					return false
+				}
+				return true
+			}
+			order := []string{"A", "B"}
+			if ov.first == "B" {
+				order = []string{"B", "A"}
+			}
+			for _, n := range order {
+				if !end(n) {
+					return
+				}
+			}
+			if t.badStream() {
+				return
+			}
+			vsched.Logf("ok")
+		}})
+	}
 	for _, sc := range scs {
 		if c.Expired() || c.HasViolation() {
 			return
